@@ -101,6 +101,7 @@ def field_opts():
         ("rename-dash", ['#[serde(rename = "x-y")]'], lambda f: True, False),
         ("rename-digit", ['#[serde(rename = "1a")]'], lambda f: True, False),
         ("rename-space", ['#[serde(rename = "with space")]'], lambda f: True, False),
+        ("rename-quote-backslash", ['#[serde(rename = "we\\"ird\\\\ one")]'], lambda f: True, False),
         ("skip", ["#[serde(skip)]"], lambda f: "nodefault" not in f, True),
         ("inline", ["#[ts(inline)]"], lambda f: "inl" in f, False),
         ("flatten", ["#[serde(flatten)]"], lambda f: "obj" in f or "flat" in f, False),
@@ -111,7 +112,7 @@ def field_opts():
     ]
 
 
-REP_TYPE = {"none": "i32", "rename-dash": "String", "rename-digit": "bool", "rename-space": "i32", "skip": "St",
+REP_TYPE = {"rename-quote-backslash": "i32", "none": "i32", "rename-dash": "String", "rename-digit": "bool", "rename-space": "i32", "skip": "St",
             "inline": "St", "flatten": "St", "optional": "Option<St>", "optional-nullable": "Option<i32>",
             "as-same": "Vec<St>", "default": "i32"}
 
@@ -304,7 +305,7 @@ def fam_enums(quick):
             out.append(one({"family": "enum-payload", "repr": rp, "payload": ty, "payload_kind": payload_kind(ty)},
                            TypeDef("E", "enum", variants=vs, attrs=list(rattr)), tys=[ty]))
         # variant attributes
-        for vlabel, vattr, skipped in (("rename", ['#[serde(rename = "re-named")]'], False), ("skip", ["#[serde(skip)]"], True),
+        for vlabel, vattr, skipped in (("rename", ['#[serde(rename = "re-named")]'], False), ("rename-quote-backslash", ['#[serde(rename = "we\\"ird\\\\ one")]'], False), ("skip", ["#[serde(skip)]"], True),
                                        ("rename_all", ['#[serde(rename_all = "camelCase")]'], False), ("untagged", ["#[serde(untagged)]"], False)):
             for s in ("unit", "newtype", "tuple2", "struct2", "named0"):
                 if not allowed(rp, s) or (vlabel == "rename_all" and s != "struct2"):
